@@ -51,8 +51,14 @@ macro_rules! lit_target {
 }
 lit_target!(syn::Lit, syn::LitInt, syn::LitFloat, syn::LitStr, syn::LitByte, syn::LitByteStr, syn::LitChar, syn::LitBool);
 impl S13 for IdentString {
+    // both sides of the value: the identifier and "the value as a string" (equal, `r#` included)
     fn toks(&self) -> String {
-        self.as_ident().to_string()
+        let (i, s, o) = (self.as_ident().to_string(), self.as_str().to_string(), String::from(self.clone()));
+        if i == s && s == o {
+            i
+        } else {
+            format!("ident {i} / as_str {s} / into String {o}")
+        }
     }
     fn direct(frag: &str) -> Option<String> {
         syn::parse_str::<syn::Ident>(frag).ok().map(|v| v.to_string())
@@ -452,7 +458,7 @@ fn helpers_unparseable(t: &mut Tally) {
 
 /// List-form targets: PathList, Vec<Lit*>, Meta.
 fn list_forms(t: &mut Tally) {
-    let cases: Vec<(&str, Vec<&str>)> = vec![("v(a, b::c, ::d)", vec!["a", "b :: c", ":: d"]), ("v()", vec![]), ("v(a)", vec!["a"])];
+    let cases: Vec<(&str, Vec<&str>)> = vec![("v(a, b::c, ::d)", vec!["a", "b :: c", ":: d"]), ("v()", vec![]), ("v(a)", vec!["a"]), ("v(::a::b, r#type::c, crate::d, self)", vec![":: a :: b", "r#type :: c", "crate :: d", "self"])];
     for (src, want) in cases {
         let m = meta_lone(src).unwrap();
         t.evaluations += 1;
@@ -463,6 +469,13 @@ fn list_forms(t: &mut Tally) {
                 let want: Vec<String> = want.iter().map(|w| squash(w.to_string())).collect();
                 if got != want {
                     t.violate(Violation { key: format!("C13 PathList `{src}` :: {got:?}"), what: format!("PathList <- `{src}`: {got:?}, expected {want:?}"), case: json!({}), detail: json!({}) });
+                }
+                // the string view: the segments' identifiers joined by `::` (documented form)
+                let strs = p.to_strings();
+                let want_strs: Vec<String> = p.iter().map(|x| x.segments.iter().map(|s| s.ident.to_string()).collect::<Vec<_>>().join("::")).collect();
+                let direct: Vec<String> = p.iter().map(darling::util::path_to_string).collect();
+                if strs != want_strs || direct != want_strs {
+                    t.violate(Violation { key: format!("C13 PathList `{src}` strings :: {strs:?}"), what: format!("PathList <- `{src}`: to_strings() = {strs:?}, path_to_string = {direct:?}, expected {want_strs:?}"), case: json!({}), detail: json!({}) });
                 }
             }
             Err(e) => t.violate(Violation { key: format!("C13 PathList `{src}` rejected"), what: format!("PathList <- `{src}` rejected: {e}"), case: json!({}), detail: json!({}) }),
@@ -530,7 +543,7 @@ pub fn main(args: &Args) {
     rep.set("targets", json!(tgs.len()));
     rep.set("fragments", json!(frags.len()));
     rep.rule = format!(
-        "{} syntax-valued targets (Path, Ident, IdentString, Expr and its array/path/range forms, Type and 14 Type* forms, TypeParam, Visibility, WhereClause, Vec<WherePredicate>, Lit and the 7 literal kinds, Vec of literals and of unsigned numbers, Callable, Meta, PathList, Punctuated) x {} fragments (paths with leading ::, generic args, qualified self, raw identifiers, keywords; ~30 expression forms; every literal kind incl. negative / radix / suffixed numbers; types; visibility; where-predicates; lists{}) each as bare value alone and as a non-final list member, inside an invisible group, and quoted (alone, in a list, in a group). Oracle: an accepted bare value prints token-for-token as written; an accepted quoted value equals syn's parse of the contents by the same grammar, and is accepted exactly when that parse succeeds; all bare spellings agree; bare == quoted where both accepted; rejections carry a span inside the item; the two parse_expr helpers agree except on string literals. distinct_nontrivial = rejected (target, fragment, spelling) triples.",
+        "{} syntax-valued targets (Path, Ident, IdentString, Expr and its array/path/range forms, Type and 14 Type* forms, TypeParam, Visibility, WhereClause, Vec<WherePredicate>, Lit and the 7 literal kinds, Vec of literals and of unsigned numbers, Callable, Meta, PathList, Punctuated) x {} fragments (paths with leading ::, generic args, qualified self, raw identifiers, keywords; ~30 expression forms; every literal kind incl. negative / radix / suffixed numbers; types; visibility; where-predicates; lists{}) each as bare value alone and as a non-final list member, inside an invisible group, and quoted (alone, in a list, in a group). Oracle: an accepted bare value prints token-for-token as written; an accepted quoted value equals syn's parse of the contents by the same grammar, and is accepted exactly when that parse succeeds; all bare spellings agree; bare == quoted where both accepted; rejections carry a span inside the item; the two parse_expr helpers agree except on string literals; IdentString's identifier, `as_str()` and `String` views agree; PathList::to_strings / path_to_string = segments joined by `::`. distinct_nontrivial = rejected (target, fragment, spelling) triples.",
         tgs.len(),
         frags.len(),
         if args.tier == vrt::Tier::Thorough { "; second-level compositions" } else { "" }
